@@ -21,7 +21,7 @@ URI_POOL = ["u:1", "u:2", "http://x/3", "u:4", "http://x/3/", "u:1/"]
 ATTR_KEYS = ["id", "k", "scope", "system", "xml:lang", "{u:1}a", "{http://x/3}b", "{u:2}a"]
 
 
-CREATORS = frozenset(["new", "copy", "import_xml", "eml_seed", "json_twin"])
+CREATORS = frozenset(["new", "copy", "import_xml", "import_json", "eml_seed", "json_twin"])
 
 
 class NoCand(Exception):
@@ -58,6 +58,7 @@ def base_cfg(rng, seed):
         "burst": rng.choice([1, 1, 3, 10]),
         "faults": True,
         "shape": rng.choice(["mixed", "mixed", "wide", "deep"]),
+        "json_corpus": rng.random() < 0.06,     # runs in which the repository's JSON fixture may be loaded
     }
     return cfg
 
